@@ -149,7 +149,10 @@ impl Report {
     /// labelled probe scenario ("" for the main generators)
     pub fn violation(&mut self, kind: &str, site: &str, msg: &str, probe: &str, scenario: Value) {
         self.violation_count += 1;
-        if self.violations.len() < 40 {
+        // records that carry the label of a known finding must never crowd out unlabelled ones: separate quotas
+        let same_label = self.violations.iter().filter(|v| v["probe"].as_str().unwrap_or("") == probe).count();
+        let quota = if probe.is_empty() { 40 } else { 6 };
+        if same_label < quota {
             self.violations.push(json!({
                 "property": self.prop, "kind": kind, "site": site, "msg": msg,
                 "probe": probe, "scenario": scenario,
